@@ -326,6 +326,22 @@ func (m *Machine) callVx(fn *ssa.Function, a []Value) Value {
 			m.traceMutex[p] = true
 		}
 		return nil
+	case "vxBarrier":
+		// a Go-function rendezvous: returns when k callers have arrived
+		k := int(m.toInt(a[0]))
+		w := m.Env
+		w.barrierN++
+		w.barrierWait = append(w.barrierWait, m.cur)
+		for w.barrierN < k {
+			m.park("barrier")
+		}
+		for _, g := range w.barrierWait {
+			if g != m.cur {
+				m.makeRunnable(g)
+			}
+		}
+		w.barrierWait = nil
+		return nil
 	case "vxFieldChan":
 		// the idx-th channel-typed field of the struct obj points to (so that a harness
 		// need not name an unexported field)
